@@ -240,12 +240,12 @@ def rs_for(rng, m, tier):
 # --------------------------------------------------------------------------------------------
 class Gram(Family):
     name = "gram"
-    theorems = ("C14_gram_dense", "C14_gram_sparse", "C14_gram_kruskal", "C14_gram_tucker", "C14_gram_agree",
-                "C14_solver_choice")
+    theorems = ("C14_gram_dense", "C14_gram_sparse", "C14_gram_sparse_refuses", "C14_gram_kruskal",
+                "C14_gram_tucker", "C14_gram_agree", "C14_solver_choice")
 
     def gen(self, rng, tier):
         out = []
-        n_obj = 10 if tier == "quick" else 60
+        n_obj = 16 if tier == "quick" else 120
         for rep in ("dense", "sparse", "ktensor", "ttensor", "ttensor_sp"):
             fixed = [[2, 3], [3, 1, 4], [4, 3, 2]] if rep != "ttensor_sp" else [[3, 2]]
             shapes = fixed + [gen_shape(rng, tier) for _ in range(n_obj if rep != "ttensor_sp" else n_obj // 3)]
@@ -412,14 +412,14 @@ def prepared_case(rng, rep, s, n):
 
 class PostExact(Family):
     name = "post_exact"
-    theorems = ("C14_postprocess", "C14_sign_rule", "C14_argsort_spec", "C14_gram_eigenvalues_nonneg",
-                "C14_sparse_dense_path_counterexample")
+    theorems = ("C14_postprocess", "C14_sign_rule", "C14_sign_rule_sparse_dense_path", "C14_argsort_spec",
+                "C14_gram_eigenvalues_nonneg", "C14_sparse_dense_path_counterexample")
 
     def gen(self, rng, tier):
         out = []
         base = [[3, 4], [4, 3], [5, 6], [6, 5], [2, 2], [4, 2, 2], [2, 3, 2], [5, 2, 3], [1, 3], [3, 1, 3], [2, 2, 2, 2]]
         shapes = list(base)
-        for _ in range(3 if tier == "quick" else 25):
+        for _ in range(5 if tier == "quick" else 50):
             shapes.append(gen_shape(rng, tier))
         for s in shapes:
             for rep in REPS:
@@ -487,12 +487,16 @@ class PostExact(Family):
             lam = sorted(c["w"], reverse=True)[:r]
             reqs.append({"op": "nvecs_contract", "G": mat_j(G), "V": mat_j(got) if ok_shape else [[0] * r] * m,
                          "lam": mat_j(lam), "m": m, "K": r})
+            # the prepared pairs themselves satisfy the service contract exactly
+            reqs.append({"op": "nvecs_contract", "G": mat_j(G), "V": mat_j(c["V"]), "lam": mat_j(c["w"]), "m": m, "K": m})
         models = drive(reqs)
         out = []
         for k, c in enumerate(cases):
             rep, r = c["rep"], c["r"]
             res, calls, ret = impls[k]
-            mpost, mcon = models[2 * k], models[2 * k + 1]
+            mpost, mcon, mprep = models[3 * k], models[3 * k + 1], models[3 * k + 2]
+            if not (mprep["ortho"] and all(mprep["eig"])):
+                raise RuntimeError("C14 generator: prepared eigenpairs violate the contract")
             m = len(c["w"])
             path = path_of(m, r)
             ident = ret is not None and list(np.argsort(-np.abs(ret[0]), kind="stable")) == list(range(len(ret[0])))
@@ -579,12 +583,13 @@ def holders(core, facs, stored_order, rng):
 
 class RealSolver(Family):
     name = "real_solver"
-    theorems = ("C14_postprocess", "C14_sign_rule", "C14_same_subspace", "C14_gram_agree", "C14_max_energy_partial")
+    theorems = ("C14_postprocess", "C14_sign_rule", "C14_same_subspace", "C14_gram_agree", "C14_max_energy",
+                "C14_max_energy_dense_path")
 
     def gen(self, rng, tier):
         out = []
         shapes = [[3, 4], [5, 4], [4, 3, 2], [3, 1, 4], [2, 3, 2, 3], [6, 3, 2]]
-        for _ in range(4 if tier == "quick" else 30):
+        for _ in range(8 if tier == "quick" else 80):
             s = gen_shape(rng, tier)
             if all(e == 1 for e in s):
                 s[0] = 3
